@@ -157,7 +157,11 @@ fn main() {
             for (i, ans) in preds.iter().enumerate() {
                 let m = model_line(ans);
                 let r = obs_model_line(&ev.obs[i].first, &ev.labeller);
-                if m != r {
+                // images that only occur while `create` is in flight: the memory was never acknowledged
+                // and the model does not cover the hinted-decode fall-back on a half-written first TOC
+                let only_create = ev.points.iter().filter(|p| p.image == i).all(|p| p.inflight == "create");
+                if m != r && only_create { sum.branch("create-in-flight-model-exempt"); }
+                if m != r && !only_create {
                     model_agrees[i] = false;
                     let k = ev.points.iter().find(|p| p.image == i).map(|p| p.k).unwrap_or(0);
                     if verbose { println!("  DISAGREE image {i} (first at k={k}): model `{ans}` impl `{r}` ({})", ev.obs[i].first.err); }
